@@ -6,7 +6,7 @@ S = "/verif/seeded"
 confirm = {}
 vf = os.path.join(S, "confirmation.txt")
 for l in open(vf):
-    m = re.match(r"SEEDED ((?:r2-)?C\d+) suite_with_patch=\[(.*?)\] demo_with=(\w+) demo_without=(\w+)", l)
+    m = re.match(r"SEEDED ((?:r[23]-)?C\d+) suite_with_patch=\[(.*?)\] demo_with=(\w+) demo_without=(\w+)", l)
     if m:
         confirm[m.group(1)] = {"suite_with_patch": m.group(2).strip(), "demo_with_patch": m.group(3), "demo_without_patch": m.group(4)}
 results = {}
@@ -16,7 +16,7 @@ for f in sorted(glob.glob(os.path.join(S, "results_seed*.jsonl"))):
         results.setdefault(j["seeded"], []).append(j)
 rows = []
 for d in sorted(os.listdir(S)):
-    if not re.match(r"(r2-)?C\d\d$", d):
+    if not re.match(r"(r[23]-)?C\d\d$", d):
         continue
     a = json.load(open(os.path.join(S, d, "author_meta.json")))
     res = results.get(d, [])
@@ -24,7 +24,7 @@ for d in sorted(os.listdir(S)):
     missed = sorted({r["check"] for r in res if r.get("exit") == 0} - set(caught))
     meta = {
         "property": d[-3:],
-        "round": 2 if d.startswith("r2-") else 1,
+        "round": int(d[1]) if d.startswith("r") else 1,
         "origin": "written by an independent sub-agent that saw only the property text and a scratch worktree of /repo (nothing from /verif)",
         "summary": a.get("summary") or a.get("change") or a.get("description"),
         "needs_to_manifest": a.get("needs_to_manifest") or a.get("what_it_needs_to_manifest") or a.get("manifests_when"),
